@@ -382,10 +382,13 @@ func (gb *gcpBalancer) getReadySubConnRef(boundKey string) (*subConnRef, bool) {
 				if sc, ok := gb.fallbackMap[boundKey]; ok {
 					return gb.scRefs[sc], true
 				}
-				// Try to create fallback mapping.
-				if scRef, err := gb.picker.(*gcpPicker).getLeastBusySubConnRef(); err == nil {
-					gb.fallbackMap[boundKey] = scRef.subConn
-					return scRef, true
+				// Try to create fallback mapping to the least busy ready subconn of the
+				// current picker. This must neither lock gb.mu again nor grow the pool.
+				if gp, ok := gb.picker.(*gcpPicker); ok {
+					if scRef := gp.leastBusyReadySubConnRef(); scRef != nil {
+						gb.fallbackMap[boundKey] = scRef.subConn
+						return scRef, true
+					}
 				}
 			}
 			return nil, true
